@@ -140,7 +140,8 @@ class StreamArbiter(Elaboratable):
         #
 
         # Only change which stream we're working with when the active stream stops transmitting.
-        with m.If(~active_stream.valid):
+        # (``valid`` may be several bits wide -- one per byte lane -- and any set bit means the stream is transmitting)
+        with m.If(~active_stream.valid.any()):
 
             # Assume we're idle until proven otherwise.
             m.d.comb += self.idle.eq(1)
